@@ -286,6 +286,24 @@ def fam_trim(ctx, rng):
     info = dict(n=n, dt=dt, start=s, end=e, trim_class=cls, on_recording=on_rec)
     ctx.describe(**info)
     obj = gen.make_recording(x[0], x[1], x[2], dt) if on_rec else hvsrpy.TimeSeries(x[0], dt)
+    # a script that plots first: the time vector it was handed is its own (shifted to absolute time, scaled to
+    # milliseconds, reversed for a waterfall) - the later trim still goes by the record's relative time
+    used_time = str(rng.choice(["no", "no", "own", "sibling-of-equal-length"]))
+    if used_time != "no":
+        holder = obj if used_time == "own" else (gen.make_recording(x[2], x[1], x[0], dt) if rng.random() < 0.5 else hvsrpy.TimeSeries(x[1], dt))
+        series = [holder.ns, holder.ew, holder.vt] if hasattr(holder, "ns") else [holder]
+        for ts in series[:int(rng.integers(1, len(series) + 1))]:
+            tv = ts.time()
+            if isinstance(tv, np.ndarray) and tv.flags.writeable and tv.size:
+                edit = int(rng.integers(0, 3))
+                if edit == 0:
+                    tv += float(rng.choice([1.0e3, 1.7e9, -5.0]))
+                elif edit == 1:
+                    tv *= 1000.0
+                else:
+                    tv[:] = tv[::-1].copy()
+                ctx.count("time_vectors_handed_out_and_edited")
+    info["time_vector_used_before"] = used_time
     refuse = (s < 0) or (s >= e) or (e > t[-1] * (1 + 1e-12) + 1e-15)
     unclear = (not refuse) and (e > t[-1])          # within rounding of the record's end
     try:
